@@ -149,12 +149,13 @@ def truth (inj : Inj) (co ro : Option ExcKind) : Truth :=
   let preFail := inj.stage = .createInDoc || inj.stage = .decompose || inj.stage = .genContexts
                   || inj.stage = .deserialize
   let callFail := !preFail && co.isSome
-  let userRan := !preFail && !callFail
+  let dispatchFail := !preFail && !callFail && inj.stage = .dispatch
+  let userRan := !preFail && !callFail && !dispatchFail
   let userFail := userRan && inj.stage = .user
   let returned := userRan && !userFail
   let retFail := returned && ro.isSome
   let serFail := returned && !retFail && inj.stage = .serialize
-  ⟨userRan, returned, preFail || callFail || userFail || retFail || serFail, serFail⟩
+  ⟨userRan, returned, preFail || callFail || dispatchFail || userFail || retFail || serFail, serFail⟩
 
 /-! ### one row of the table -/
 
@@ -189,7 +190,7 @@ def allEvent : List Event :=
    .wsgiCall, .wsgiReturn, .wsgiException, .wsgiClose, .other]
 def allSym : List Sym := .user :: allEvent.map .ev
 def allTransport : List Transport := [.serverBase, .wsgi]
-def allStage : List Stage := [.none, .createInDoc, .decompose, .genContexts, .deserialize, .user, .serialize]
+def allStage : List Stage := [.none, .createInDoc, .decompose, .genContexts, .deserialize, .dispatch, .user, .serialize]
 def allKind : List ExcKind := [.fault, .exc]
 def allOptKind : List (Option ExcKind) := [none, some .fault, some .exc]
 def allInj : List Inj :=
